@@ -152,3 +152,40 @@ class C05(TreeSpec):
         res = TreeSpec.run(self, bt, plan)
         res["nontrivial"] = res["nontrivial"] and res["fired"].get("alloc_judged", 0) >= 1
         return res
+
+
+@register
+class C10(TreeSpec):
+    id = "C10"
+    judged = ("C10", "C05")
+    own_checks = ("C10.unexpected_exception", "C10.sizing_exception", "C10.zero_base_missed", "C10.open_nan_missed", "C10.nonfinite", "C10.report_raises", "C10.ill_not_raised", "C10.ill_state_changed", "c05_refuse", "c05_refuse_state")
+    tiers = {"quick": dict(runs=3600, builds=("py", "cy"), wall=75), "thorough": dict(runs=120000, builds=("py", "cy"), wall=1500)}
+    rule = (
+        "runs alternate between well-formed tree-driver plans, well-formed real Backtest.run()s of stock-algo stacks (then every report accessor is called and every recorded number must be finite) and plans with one enumerated ill-formed situation injected "
+        "(NaN price on an open position, trade at NaN/zero price, custom-price trade without bid/offer data, fixed-income child under a market-value parent, duplicate tickers); an exception is legitimate iff the reference model shows one of the enumerated conditions at that instant, and then it is required; "
+        "distinct = plan digest; non-trivial = >= 1 trade and >= 2 ticks, or an ill-formed situation that actually arose"
+    )
+    ILL = ("nan_open", "custom_nobidoffer", "fi_child")
+
+    def gen(self, r, tier, i):
+        k = i % 6
+        if k in (0, 3):
+            return drive_engine.gen_engine_plan(r, "mixed", tier)
+        if k == 5:
+            return drive_tree.gen_ill_plan(r, self.ILL[(i // 6) % len(self.ILL)], tier)
+        return drive_tree.gen_plan(r, "sizing" if k == 4 else "accounting", tier)
+
+    def run(self, bt, plan):
+        res = TreeSpec.run(self, bt, plan)
+        ill = plan["cfg"].get("ill")
+        if ill:
+            res["info"]["ill_" + ill] = 1
+            f = res["fired"]
+            if f.get("open_nan_raise") or f.get("ill_custom_price") or f.get("ill_fi_child"):
+                res["nontrivial"] = True
+                res["info"]["ill_arose_" + ill] = 1
+        if plan["driver"] == "engine" and plan["cfg"].get("dupcheck", True):
+            if not drive_engine.check_dup_columns(bt, plan):
+                res["viol"].append({"check": "C10.ill_not_raised", "detail": "Backtest accepted duplicate column names", "flags": {"ill": "dup_cols"}})
+            res["fired"]["ill_dup_columns"] = res["fired"].get("ill_dup_columns", 0) + 1
+        return res
